@@ -4,8 +4,11 @@
 #![allow(unused_imports, dead_code, unused_macros)]
 #![cfg_attr(kani, feature(allocator_api))]
 
+extern crate alloc;
+
 #[macro_use]
 pub mod sym;
+pub mod allocstub;
 pub mod gen;
 pub mod cat;
 pub mod model;
